@@ -1045,3 +1045,207 @@ def check_C16(run):
 
 
 CHECKS["C16"] = check_C16
+
+
+# ============================================================================= C10
+
+def check_C10(run):
+    V, facts = [], {"nontrivial": [], "reach": {}}
+    tasks = run.scn["tasks"]
+    root = str(run.root)
+    reach = facts["reach"]
+
+    def bump(k, n=1):
+        reach[k] = reach.get(k, 0) + n
+
+    for i, st in run_steps(run):
+        inv = st.inv
+        if inv.killed or inv.deadlock is not None or st.after is None:
+            continue
+        if inv.internal is not None and not st.op.get("signal"):
+            V.append(Violation("C10", "internal-error %s at %s" % (inv.internal[0], inv.internal[1]),
+                               {"internal": list(inv.internal)}, i))
+            continue
+        tree = st.after["tree"]
+        exits = {}
+        for e in inv.trace:
+            if e[0] == "exit":
+                exits[e[1]] = (e[2], e[3])
+        teed_err = b""
+        out_bytes = inv.out
+        pos = 0
+        for sp in inv.spawns:
+            t = sp["task"]
+            if t not in tasks or tasks[t]["kind"] != "exp":
+                continue
+            name = "%s#%d" % (t, sp["execno"])
+            how = exits.get(name)
+            if how is None or how[0] not in ("exit", "sig"):
+                continue
+            exp_out, exp_err = I.expected_streams(st.op, t, sp["execno"])
+            rel = os.path.relpath(sp["env"]["COND_OUT"], os.path.join(root, "cond-out"))
+            mode = "teed" if sp["io"]["out"] == "pipe" else ("logged" if sp["io"]["out"] == "file" else sp["io"]["out"])
+            for fname, data in (("stdout.log", exp_out), ("stderr.log", exp_err)):
+                got = tree.get(rel + "/" + fname)
+                if got is None:
+                    V.append(Violation("C10", "log-file-missing (%s)" % mode, {"task": t, "file": fname}, i))
+                elif got[0] != "f" or got[1] != I.sha(data):
+                    what = "log-file-truncated" if got[0] == "f" and got[2] < len(data) else "log-file-differs"
+                    V.append(Violation("C10", "%s (%s)" % (what, mode),
+                                       {"task": t, "file": fname, "size": got[2] if got[0] == "f" else None,
+                                        "expected_size": len(data)}, i))
+            if mode == "teed":
+                teed_err += exp_err
+                # forwarded to Conductor's own stdout between the task's status lines
+                marker = ("Running %s... " % t).encode()
+                j = out_bytes.find(marker, pos)
+                if j < 0:
+                    V.append(Violation("C10", "running-line-not-found-in-own-stdout", {"task": t}, i))
+                else:
+                    eol = out_bytes.find(b"\n", j)
+                    nxt = out_bytes.find(b"\x1b[", eol)
+                    window = out_bytes[eol + 1: nxt if nxt >= 0 else len(out_bytes)]
+                    if window != exp_out:
+                        what = "forwarded-stdout-incomplete" if exp_out.startswith(window) else "forwarded-stdout-differs"
+                        V.append(Violation("C10", what, {"task": t, "got_len": len(window), "expected_len": len(exp_out)}, i))
+                    pos = eol
+                bump("teed_execution")
+            else:
+                bump("logged_execution")
+            if len(exp_out) > 65536 or len(exp_err) > 65536:
+                bump("stream_larger_than_pipe_buffer")
+            if sp["task"] in tasks and st.op["scripts"].get(t) and \
+                    I.script_of(st.op, t, sp["execno"]).get("instant_exit"):
+                bump("exit_before_drain")
+            # argument records (written for successful executions)
+            if how == ("exit", 0):
+                d = tasks[t]
+                for fname, val in (("args.json", d.get("args") or None), ("options.json", d.get("options") or None)):
+                    got = tree.get(rel + "/" + fname)
+                    if val is None:
+                        if got is not None:
+                            V.append(Violation("C10", "record-file-present-although-empty", {"task": t, "file": fname}, i))
+                        continue
+                    if got is None:
+                        V.append(Violation("C10", "record-file-missing", {"task": t, "file": fname}, i))
+                        continue
+                    try:
+                        dec = json.loads(got[3])
+                    except Exception as ex:  # noqa
+                        V.append(Violation("C10", "record-file-does-not-decode", {"task": t, "file": fname, "error": str(ex)[:80]}, i))
+                        continue
+                    if dec != val or not I._same_types(dec, val):
+                        V.append(Violation("C10", "record-file-decodes-to-other-values",
+                                           {"task": t, "file": fname, "got": dec, "expected": val}, i))
+            facts["nontrivial"].append("%s-o%d-e%d" % (mode, min(len(exp_out), 9) if len(exp_out) < 9 else len(exp_out) // 4096 + 9,
+                                                      min(len(exp_err), 9) if len(exp_err) < 9 else len(exp_err) // 4096 + 9))
+        if teed_err:
+            if not inv.err.startswith(teed_err):
+                # find what is missing
+                V.append(Violation("C10", "forwarded-stderr-differs", {"got_len": len(inv.err), "expected_prefix_len": len(teed_err)}, i))
+    return V, facts
+
+
+CHECKS["C10"] = check_C10
+
+
+# ============================================================================= C11
+
+def archive_selection(tasks, rows, target, latest):
+    """the versions `cond archive [T] [--latest]` must put into the archive (from the documentation)"""
+    if target is None:
+        sel = list(rows)
+    else:
+        clo = M.closure(tasks, target)
+        exps = {t for t in clo if tasks[t]["kind"] == "exp"}
+        sel = [r for r in rows if r[0] in exps]
+    if latest:
+        best = {}
+        for r in sel:
+            if r[0] not in best or r[1] > best[r[0]][1]:
+                best[r[0]] = r
+        sel = list(best.values())
+    return sorted(map(tuple, sel))
+
+
+def check_C11(run):
+    V, facts = [], {"nontrivial": [], "reach": {}}
+    tasks = run.scn["tasks"]
+    reach = facts["reach"]
+    archives = {}
+    last_archive = None
+    for i, st in enumerate(run.steps):
+        inv = st.inv
+        if inv is None or st.before is None or st.after is None or inv.killed:
+            continue
+        k = st.op["op"]
+        rows_b = st.before["rows"] if isinstance(st.before["rows"], list) else []
+        rows_a = st.after["rows"] if isinstance(st.after["rows"], list) else []
+        if k == "archive":
+            target = st.op.get("target")
+            latest = bool(st.op.get("flags", {}).get("latest"))
+            sel = archive_selection(tasks, rows_b, target, latest)
+            name = st.op.get("out") or "@default"
+            # archiving never changes the source project
+            if sorted(map(tuple, rows_a)) != sorted(map(tuple, rows_b)):
+                V.append(Violation("C11", "archive-changed-recorded-versions", {}, i))
+            for r in rows_b:
+                rel = M.out_dir_rel(r[0], r[1])
+                if I.subtree(st.before["tree"], rel) != I.subtree(st.after["tree"], rel):
+                    V.append(Violation("C11", "archive-changed-an-output-directory", {"dir": rel}, i))
+            if inv.internal is not None:
+                V.append(Violation("C11", "archive-internal-error %s at %s" % (inv.internal[0], inv.internal[1]),
+                                   {"internal": list(inv.internal)[:3], "target": target}, i))
+                continue
+            if not sel:
+                if inv.code == 0:
+                    V.append(Violation("C11", "archive-succeeded-with-nothing-to-archive", {"target": target}, i))
+                reach["archive_nothing_to_archive"] = reach.get("archive_nothing_to_archive", 0) + 1
+                continue
+            if inv.code != 0:
+                V.append(Violation("C11", "archive-failed-although-versions-exist",
+                                   {"target": target, "latest": latest, "err": inv.err.decode("utf-8", "replace")[-300:]}, i))
+                continue
+            archives[name] = {"sel": sel, "tree": st.before["tree"], "step": i,
+                              "mode": "%s%s" % ("task" if target else "all", "-latest" if latest else "")}
+            facts["nontrivial"].append("archive-%s-%d" % (archives[name]["mode"], min(len(sel), 5)))
+        elif k == "restore":
+            name = st.op["archive"]
+            a = archives.get(name)
+            if a is None or st.op.get("corrupt"):
+                continue
+            sel = a["sel"]
+            # tar member list / index inside the archive
+            if st.archive_info is not None and sorted(map(tuple, st.archive_info)) != sel:
+                V.append(Violation("C11", "archive-holds-other-versions-than-selected (%s)" % a["mode"],
+                                   {"in_archive": st.archive_info[:6], "expected": sel[:6]}, i))
+                continue
+            bset = {tuple(r) for r in rows_b}
+            if bset & set(sel):
+                continue  # the project does not lack those versions: C12's business
+            if inv.code != 0:
+                V.append(Violation("C11", "restore-failed-into-project-that-lacks-the-versions",
+                                   {"err": inv.err.decode("utf-8", "replace")[-400:],
+                                    "internal": list(inv.internal)[:3] if inv.internal else None}, i))
+                continue
+            gained = sorted({tuple(r) for r in rows_a} - bset)
+            if gained != sel:
+                V.append(Violation("C11", "restored-versions-differ-from-selected (%s)" % a["mode"],
+                                   {"gained": gained[:6], "expected": sel[:6]}, i))
+            for r in sel:
+                rel = M.out_dir_rel(r[0], r[1])
+                want = I.subtree(a["tree"], rel)
+                got = I.subtree(st.after["tree"], rel)
+                if got != want:
+                    diff = sorted(set(want.items()) ^ set(got.items()), key=str)[:4]
+                    kinds = {x[1][0] for x in diff}
+                    what = "restored-tree-differs"
+                    if any(v[0] == "l" for v in want.values()) and "l" in kinds:
+                        what = "restored-tree-differs-symbolic-link-not-preserved"
+                    V.append(Violation("C11", what, {"dir": rel, "diff": diff}, i))
+            facts["nontrivial"].append("restore-%s-%d" % (a["mode"], min(len(sel), 5)))
+            reach["roundtrip_checked"] = reach.get("roundtrip_checked", 0) + 1
+    return V, facts
+
+
+CHECKS["C11"] = check_C11
